@@ -1598,30 +1598,39 @@ def stream_setter_edits(ctx, batch):
             continue
         edits = setter_edits(rng, s)
         rng.shuffle(edits)
+        consumed = False
         for name, rule, apply, undo in edits[:ctx.n(5, 8)]:
+            if consumed:
+                break
+            # a replace request sends the schema through fix_type_references (type objects are rebuilt): it is used
+            # for the edit phase only and ends the use of this schema; `enum.values` is a plain attribute (the
+            # rebuilt enum comes from its private index), so that edit is only followed by a fresh Schema
+            reset = "replace" if (rng.random() < 0.3 and name != "enum_values_clear") else "fresh"
             for phase, fn, labels in (("edit", apply, [("setter:" + name, rule)]), ("undo", undo, [])):
                 try:
                     fn()
                 except Exception as exc:  # noqa  (constructors refusing the edit)
                     ctx.stat("setter-refused:%s:%s" % (name, type(exc).__name__))
+                    consumed = True
                     break
-                reset = rng.choice(["fresh", "replace"])
                 info = {"stream": "setter", "edit": name, "phase": phase, "reset": reset}
                 try:
                     if reset == "fresh":
                         cur = fresh_schema_over(s)
                     else:
                         cur = s
+                        consumed = True
                         victim = rng.choice([t for t in s.types.values() if not t.name.startswith("__") and t.name not in gs.SCALARS])
                         s._replace_types_and_directives({victim.name: copy.copy(victim)})
                 except GraphQLError as exc:
                     ctx.stat("setter-reset-refused:%s" % type(exc).__name__)
-                    continue
+                    break
                 except Exception as exc:  # noqa
                     ctx.stat("setter-reset-internal:%s" % type(exc).__name__)
+                    consumed = True
                     break
                 done += 1
-                ctx.stat("setter:%s:%s" % (name, phase))
+                ctx.stat("setter:%s:%s:%s" % (name, phase, reset))
                 v, e = check_schema(ctx, batch, cur, labels, "setter", info, desc=d0)
                 # Schema.validate() must agree with the fresh verdict once the cache was reset
                 try:
@@ -1632,11 +1641,8 @@ def stream_setter_edits(ctx, batch):
                 if cached != v and not v.startswith("internal"):
                     ctx.fail("stale-verdict-after:setter-edit+%s" % reset, "validate() disagrees with a fresh validation after the verdict cache was reset",
                              {"how": "setter", "desc": d0, "edit": name, "phase": phase, "reset": reset, "validate": cached, "fresh": v})
-                if reset == "replace" and phase == "undo":
-                    break   # `s` went through fix_type_references: the closures of the remaining edits point at replaced objects
-            else:
-                continue
-            break
+                if reset == "replace":
+                    break
     ctx.extra["setter_edit_cases"] = done
 
 # ---- E: cache histories -------------------------------------------------------------------------
@@ -2010,6 +2016,8 @@ def replay(ctx, data):
         import random
         edit = inp.get("edit") or inp.get("info", {}).get("edit")
         for reset in ("fresh", "replace"):
+            if reset == "replace" and edit == "enum_values_clear":
+                continue
             src = build_code(desc)
             src.validate()
             for name, rule, apply, undo in setter_edits(random.Random(0), src):
